@@ -116,7 +116,7 @@ def run(chk):
     model = vlib.ocaml_build("cond_driver", ["cond_model"])
     bins = vlib.harness_build(("debug", "release"))
     known = {f["class"]: f["id"] for f in vlib.known_findings() if f["property"] == "C16" and f["status"] == "known"}
-    ncases = 5000 if chk.tier == "quick" else 60000
+    ncases = 12000 if chk.tier == "quick" else 120000
     cases = [(t, d, "directed") for (t, d) in directed()]
     rng = chk.rng.fork("g-cond")
     for _ in range(ncases):
@@ -152,6 +152,7 @@ def run(chk):
     dist = {"ok": 0, "err_dup": 0, "err_skip": 0, "err_leftover": 0, "err_unused": 0, "err_eval": 0, "err_define": 0,
             "err_later": 0, "with_defines": 0, "nested_names": 0, "known_f55": 0, "depth4": 0, "elif": 0}
     ndis = 0
+    corr_viol = []
     spec_lines, spec_idx = [], []
     for idx, (t, d, fam) in enumerate(cases):
         impl = res["debug"][idx]
@@ -202,8 +203,9 @@ def run(chk):
             same = a == b
         if not same:
             ndis += 1
-            chk.violation("model/implementation correspondence broken: impl %s, model %s%s" % (impl, mres[idx], " (+later phases: error)" if exp == ("ERR", "later") else ""),
-                          rep(idx, kind="correspondence", theorems=THEOREMS), found=False)
+            # reported after the spec / metamorphic streams, so that a concrete failing input (if any) comes first
+            corr_viol.append(("model/implementation correspondence broken: impl %s, model %s%s" % (impl, mres[idx], " (+later phases: error)" if exp == ("ERR", "later") else ""),
+                              rep(idx, kind="correspondence", theorems=THEOREMS)))
         # ---- the spec on the implementation's own output
         if fi[0] == "OK":
             defined = {G.parse_define_value(x)[0] for x in d if G.parse_define_value(x)}
@@ -268,6 +270,8 @@ def run(chk):
         if a[0] != b[0] or a[1] != b[1] or sa != sb:
             f55(idx, "the program and its selected world assemble differently: %s vs %s" % (res["debug"][idx], ans),
                 kind="metamorphic", selected_world=vlib.unhx(line.split("\t")[3]), selected_world_result=ans)
+    for what, r in corr_viol:
+        chk.violation(what, r, found=False)
     chk.count("corr", len(cases), **dist)
     chk.count("spec", len(spec_lines))
     chk.count("meta", nmeta)
